@@ -137,7 +137,10 @@ class Program(object):
 
         address = 0
         for index, statement in enumerate(self.statements):
-            address = statement.set_address(address)
+            try:
+                address = statement.set_address(address)
+            except ValueTypeError:
+                raise TranslationError("Statement lies beyond the end of memory at $FFFF", statement)
             address += statement.code_pkg.size
 
         for index, statement in enumerate(self.statements):
